@@ -2,6 +2,7 @@ SPECIFICATION Spec
 CONSTANTS D = 2
           NPre = 5
           NE = 5
+          EMin = 1
           EMax = 2
           Dirs = {"rtl"}
           Caps = {1, 2, 3, 4, 99}
